@@ -38,9 +38,10 @@ class Ledger:
         self.total_shares0 = dict(tot)
         self.ready = True
 
-    def apply(self, log):
+    def apply(self, log, parties=None):
         pv = log.price * log.volume
-        b, s, m = log.buy_agent_id, log.sell_agent_id, log.market_id
+        b, s = parties if parties is not None else (log.buy_agent_id, log.sell_agent_id)
+        m = log.market_id
         self.cash[b] -= pv
         self.cash[s] += pv
         self.flow[b] += abs(pv)
@@ -67,8 +68,40 @@ class Ledger:
 # ---------------------------------------------------------------------------
 # C05
 # ---------------------------------------------------------------------------
+class Owners:
+    """who owns an order, established where the order enters the run - the agent that returned it from submit_orders -
+    and never read from the records the code under test writes about it (a fill record naming the wrong agent is one
+    of the things to be found)."""
+
+    def __init__(self):
+        self.by_obj = {}        # id(order object) -> (object, agent_id)
+        self.by_id = {}         # (market_id, order_id) -> agent_id
+
+    def on_event(self, ev):
+        k = ev["k"]
+        if k == "consult_ret":
+            aid = ev["agent"].agent_id
+            for o in ev["orders"]:
+                self.by_obj[id(o)] = (o, aid)
+        elif k == "add_ret":
+            o = ev["order"]
+            rec = self.by_obj.get(id(o))
+            aid = rec[1] if rec is not None and rec[0] is o else ev.get("snap", {}).get("agent_id", o.agent_id)
+            self.by_id[(ev["mkt"].market_id, ev["log"].order_id)] = aid
+
+    def of_order(self, ev_or_obj, default):
+        rec = self.by_obj.get(id(ev_or_obj))
+        return rec[1] if rec is not None and rec[0] is ev_or_obj else default
+
+    def parties(self, log):
+        """(buyer, seller) of a fill: the owners of the two matched orders."""
+        return (self.by_id.get((log.market_id, log.buy_order_id), log.buy_agent_id),
+                self.by_id.get((log.market_id, log.sell_order_id), log.sell_agent_id))
+
+
 class C05Monitor:
     def __init__(self, res):
+        self.owners = Owners()
         self.res = res
         self.ledger = Ledger()
         self.sim = None
@@ -116,13 +149,15 @@ class C05Monitor:
 
     def on_event(self, ev):
         k = ev["k"]
+        self.owners.on_event(ev)
         if k == "runner_setup_ret":
             self.sim = ev["runner"].simulator
             self.ledger.capture(self.sim)
         elif k == "exec_ret":
             logs = ev["logs"]
             for log in logs:
-                self.ledger.apply(log)
+                # the fill is folded onto the OWNERS of the two matched orders, not onto the agent ids the record carries
+                self.ledger.apply(log, self.owners.parties(log))
                 self.__dict__.setdefault("returned_ids", set()).add(id(log))
                 self.__dict__.setdefault("keep", []).append(log)
                 if log.buy_agent_id == log.sell_agent_id:
@@ -717,6 +752,7 @@ class C10Monitor(BookTracker):
 # ---------------------------------------------------------------------------
 class C11Monitor:
     def __init__(self, res):
+        self.owners = Owners()
         self.res = res
         self.ledger = Ledger()
         self.gt = []        # (kind, log, parties)
@@ -730,22 +766,25 @@ class C11Monitor:
 
     def on_event(self, ev):
         k = ev["k"]
+        self.owners.on_event(ev)
         if k == "runner_setup_ret":
             self.sim = ev["runner"].simulator
             self.ledger.capture(self.sim)
         elif k == "consult_call":
             self.in_hft = ev["hft"]
         elif k == "add_ret":
-            self.gt.append(("submitted", ev["log"], [ev["log"].agent_id], ev["seq"]))
+            self.gt.append(("submitted", ev["log"], [self.owners.of_order(ev["order"], ev["log"].agent_id)], ev["seq"]))
             self._path()
         elif k == "cancel_ret":
-            self.gt.append(("canceled", ev["log"], [ev["log"].agent_id], ev["seq"]))
+            self.gt.append(("canceled", ev["log"], [self.owners.of_order(ev["cancel"], self.owners.of_order(
+                ev["order"], ev["log"].agent_id))], ev["seq"]))
             self._path()
         elif k == "exec_ret":
             for log in ev["logs"]:
-                self.ledger.apply(log)
-                self.gt.append(("executed", log, [log.buy_agent_id, log.sell_agent_id], ev["seq"]))
-                if log.buy_agent_id == log.sell_agent_id:
+                b_, s_ = self.owners.parties(log)
+                self.ledger.apply(log, (b_, s_))
+                self.gt.append(("executed", log, [b_, s_], ev["seq"]))
+                if b_ == s_:
                     self.self_trades += 1
             self.max_round = max(self.max_round, len(ev["logs"]))
         elif k == "cb":
